@@ -1,13 +1,16 @@
 (** C16 (only valid, admissible packages roll out; unchanged packages are left alone):
     property theorems.  Statements only; every proof is `exact <lemma>`.
 
-    [pass digest fixed o s] is one Reconcile of the Package controller (Package.v) started in the
-    state [s] = stored Package + stored ObjectDeployment + outcomes of the API requests to come;
-    [o] gives the outcome of every stage (pull, load, constraints, config admission, image
-    references, render + validation); [digest] identifies the template rendered from (image,
-    config, component).  [fixed = false] is the code as it is, [fixed = true] the repaired Deploy
-    in which unmet constraints stop the deployment.  Every statement holds for ALL stored states,
-    ALL oracle outcomes and ALL API request outcomes (faults before or after the effect). *)
+    [pass digest o s] is one Reconcile of the Package controller (Package.v) started in the state
+    [s] = stored Package + stored ObjectDeployment + outcomes of the API requests to come +
+    schedule of third-party writes to the ObjectDeployment; [o] gives the outcome of every stage
+    (pull, load, constraints, config admission, image references, render + validation); [digest]
+    identifies the template rendered from (image, config, component).  [pass] is the code as it
+    is; [pass_v0] is the code before cb58cda, in which unmet constraints did not stop Deploy (kept
+    for the refutation only).  Every statement holds for ALL stored states, ALL oracle outcomes,
+    ALL API request outcomes (faults before or after the effect) and ALL schedules of third-party
+    writes (which make the controller's Updates fail with Conflict and send the deployment
+    reconciler through its retry loop). *)
 From Coq Require Import List NArith Bool Lia.
 From PKO Require Import Util Package PackageProofs.
 From PKOCorr Require Import C16Corr.
@@ -15,62 +18,68 @@ Import ListNotations.
 Local Open Scope N_scope.
 
 (** ** Stage k fails => no ObjectDeployment create / update request in that pass, template
-    (or absence of the ObjectDeployment) unchanged.  One statement per failure class; all of these
-    hold for the code as it is ([fixed] arbitrary). *)
+    (or absence of the ObjectDeployment) unchanged.  One statement per failure class. *)
 
 Theorem C16_invalid_no_deploy_pull :
-  forall digest fixed o s, o_pull o = false ->
-  exists l, new_events s (pass digest fixed o s) l /\ none_of is_od_write l = true /\
-            od_tmpl (st_w (r_st (pass digest fixed o s))) = od_tmpl (st_w s).
-Proof. exact invalid_no_deploy_pull. Qed.
+  forall digest o s, o_pull o = false ->
+  exists l, new_events s (pass digest o s) l /\ none_of is_od_write l = true /\
+            od_tmpl (st_w (r_st (pass digest o s))) = od_tmpl (st_w s).
+Proof. exact (fun digest => invalid_no_deploy_pull digest true). Qed.
 Print Assumptions C16_invalid_no_deploy_pull.
 
 Theorem C16_invalid_no_deploy_load :
-  forall digest fixed o s, o_load o = false ->
-  exists l, new_events s (pass digest fixed o s) l /\ none_of is_od_write l = true /\
-            od_tmpl (st_w (r_st (pass digest fixed o s))) = od_tmpl (st_w s).
-Proof. exact invalid_no_deploy_load. Qed.
+  forall digest o s, o_load o = false ->
+  exists l, new_events s (pass digest o s) l /\ none_of is_od_write l = true /\
+            od_tmpl (st_w (r_st (pass digest o s))) = od_tmpl (st_w s).
+Proof. exact (fun digest => invalid_no_deploy_load digest true). Qed.
 Print Assumptions C16_invalid_no_deploy_load.
+
+(** unmet platform / version / uniqueness constraint *)
+Theorem C16_invalid_no_deploy_unmet :
+  forall digest o s, unmet o = true ->
+  exists l, new_events s (pass digest o s) l /\ none_of is_od_write l = true /\
+            od_tmpl (st_w (r_st (pass digest o s))) = od_tmpl (st_w s).
+Proof. exact invalid_no_deploy_unmet. Qed.
+Print Assumptions C16_invalid_no_deploy_unmet.
+
+(** constraints that cannot be evaluated (unparsable range or version, no labelled Package found) *)
+Theorem C16_invalid_no_deploy_constraint_error :
+  forall digest o s, cons_err o = true ->
+  exists l, new_events s (pass digest o s) l /\ none_of is_od_write l = true /\
+            od_tmpl (st_w (r_st (pass digest o s))) = od_tmpl (st_w s).
+Proof. exact (fun digest => invalid_no_deploy_constraint_error digest true). Qed.
+Print Assumptions C16_invalid_no_deploy_constraint_error.
 
 (** configuration violating the manifest's schema (or not a JSON object) *)
 Theorem C16_invalid_no_deploy_config :
-  forall digest fixed o s, config_ok o = false ->
-  exists l, new_events s (pass digest fixed o s) l /\ none_of is_od_write l = true /\
-            od_tmpl (st_w (r_st (pass digest fixed o s))) = od_tmpl (st_w s).
-Proof. exact invalid_no_deploy_config. Qed.
+  forall digest o s, config_ok o = false ->
+  exists l, new_events s (pass digest o s) l /\ none_of is_od_write l = true /\
+            od_tmpl (st_w (r_st (pass digest o s))) = od_tmpl (st_w s).
+Proof. exact (fun digest => invalid_no_deploy_config digest true). Qed.
 Print Assumptions C16_invalid_no_deploy_config.
 
 (** structural / object validation failure or unusable lock file image reference *)
 Theorem C16_invalid_no_deploy_render :
-  forall digest fixed o s, o_images o = false \/ o_render o = false ->
-  exists l, new_events s (pass digest fixed o s) l /\ none_of is_od_write l = true /\
-            od_tmpl (st_w (r_st (pass digest fixed o s))) = od_tmpl (st_w s).
-Proof. exact invalid_no_deploy_render. Qed.
+  forall digest o s, o_images o = false \/ o_render o = false ->
+  exists l, new_events s (pass digest o s) l /\ none_of is_od_write l = true /\
+            od_tmpl (st_w (r_st (pass digest o s))) = od_tmpl (st_w s).
+Proof. exact (fun digest => invalid_no_deploy_render digest true). Qed.
 Print Assumptions C16_invalid_no_deploy_render.
 
-(** constraints that cannot be evaluated (unparsable range or version, no labelled Package found) *)
-Theorem C16_invalid_no_deploy_constraint_error :
-  forall digest fixed o s, cons_err o = true ->
-  exists l, new_events s (pass digest fixed o s) l /\ none_of is_od_write l = true /\
-            od_tmpl (st_w (r_st (pass digest fixed o s))) = od_tmpl (st_w s).
-Proof. exact invalid_no_deploy_constraint_error. Qed.
-Print Assumptions C16_invalid_no_deploy_constraint_error.
-
-(** all of the above at once: whatever is not deployable is not deployed *)
+(** all of the above at once: whatever is not valid and admissible is not deployed *)
 Theorem C16_not_deployable_no_deploy :
-  forall digest fixed o s, deployable fixed o = false ->
-  exists l, new_events s (pass digest fixed o s) l /\ none_of is_od_write l = true /\
-            od_tmpl (st_w (r_st (pass digest fixed o s))) = od_tmpl (st_w s).
-Proof. exact not_deployable_no_deploy. Qed.
+  forall digest o s, all_ok o = false ->
+  exists l, new_events s (pass digest o s) l /\ none_of is_od_write l = true /\
+            od_tmpl (st_w (r_st (pass digest o s))) = od_tmpl (st_w s).
+Proof. exact (fun digest => not_deployable_no_deploy digest true). Qed.
 Print Assumptions C16_not_deployable_no_deploy.
 
-(** ** Unmet platform / version / uniqueness constraint.
-    REFUTED for the code as it is (F-C16): validateConstraints records Invalid/ConstraintsFailed and
-    returns nil (deployer.go:375-385), Deploy goes on (deployer.go:151-154), writes the
-    ObjectDeployment and removes the condition (deployer.go:212). *)
-Theorem C16_constraints_block_refuted :
+(** The constraints clause was REFUTED for the code before cb58cda (F-C16, defect fixed by cb58cda):
+    validateConstraints recorded Invalid/ConstraintsFailed and returned nil, Deploy went on, wrote
+    the ObjectDeployment and removed the condition. *)
+Theorem C16_v0_constraints_block_refuted :
   exists (o : oracle) (s : st),
-    let r := pass wit_digest false o s in
+    let r := pass_v0 wit_digest o s in
     unmet o = true /\ r_err r = false /\
     existsb is_od_write (st_log (r_st r)) = true /\
     od_tmpl (st_w (r_st r)) = Some (Some (spec_digest wit_digest (p_spec (w_pkg (st_w s))))) /\
@@ -78,147 +87,137 @@ Theorem C16_constraints_block_refuted :
     find_cond CInvalid (p_conds (stored_pkg r)) = None /\
     p_hash (stored_pkg r) = Some (p_spec (w_pkg (st_w s))).
 Proof. exact constraints_block_refuted. Qed.
-Print Assumptions C16_constraints_block_refuted.
+Print Assumptions C16_v0_constraints_block_refuted.
 
-(** The clause holds for the repaired Deploy ([fixed = true], fixes/C16-constraints-block.diff):
-    no write, and the condition is persisted by every error-free pass. *)
-Theorem C16_invalid_no_deploy_unmet_fixed :
-  forall digest o s, unmet o = true ->
-  exists l, new_events s (pass digest true o s) l /\ none_of is_od_write l = true /\
-            od_tmpl (st_w (r_st (pass digest true o s))) = od_tmpl (st_w s).
-Proof. exact invalid_no_deploy_unmet. Qed.
-Print Assumptions C16_invalid_no_deploy_unmet_fixed.
-
-Theorem C16_constraints_failure_condition_fixed :
+(** ** Conditions persisted by an error-free pass ([reach]: not paused and spec hash <> unpackedHash).
+    A pass that returns an error persists nothing (package_controller.go:197-202). *)
+Theorem C16_pull_failure_condition :
   forall digest o s,
-    let p := w_pkg (st_w s) in let r := pass digest true o s in
+    let p := w_pkg (st_w s) in let r := pass digest o s in
+    reach p = true -> o_pull o = false -> r_err r = false ->
+    p_conds (stored_pkg r) = set_cond (mk_cond p CUnpacked false RImagePullBackOff) (p_conds p) /\
+    has_cond CUnpacked false RImagePullBackOff (p_conds (stored_pkg r)) = true /\
+    p_hash (stored_pkg r) = p_hash p /\ r_requeue r = true.
+Proof. exact (fun digest => pull_failure_condition digest true). Qed.
+Print Assumptions C16_pull_failure_condition.
+
+Theorem C16_load_failure_condition :
+  forall digest o s,
+    let p := w_pkg (st_w s) in let r := pass digest o s in
+    reach p = true -> o_pull o = true -> o_load o = false -> r_err r = false ->
+    p_conds (stored_pkg r) =
+      set_cond (mk_cond p CUnpacked true RUnpackSuccess) (set_cond (mk_cond p CInvalid true RLoadError) (p_conds p)) /\
+    has_cond CInvalid true RLoadError (p_conds (stored_pkg r)) = true /\
+    p_hash (stored_pkg r) = Some (p_spec p).
+Proof. exact (fun digest => load_failure_condition digest true). Qed.
+Print Assumptions C16_load_failure_condition.
+
+Theorem C16_constraints_failure_condition :
+  forall digest o s,
+    let p := w_pkg (st_w s) in let r := pass digest o s in
     reach p = true -> o_pull o = true -> o_load o = true -> unmet o = true -> r_err r = false ->
     p_conds (stored_pkg r) =
       set_cond (mk_cond p CUnpacked true RUnpackSuccess) (set_cond (mk_cond p CInvalid true RConstraintsFailed) (p_conds p)) /\
     has_cond CInvalid true RConstraintsFailed (p_conds (stored_pkg r)) = true /\
     p_hash (stored_pkg r) = Some (p_spec p).
 Proof. exact constraints_failure_condition. Qed.
-Print Assumptions C16_constraints_failure_condition_fixed.
+Print Assumptions C16_constraints_failure_condition.
 
-(** ** Conditions persisted by an error-free pass ([reach]: not paused and spec hash <> unpackedHash).
-    A pass that returns an error persists nothing (package_controller.go:197-202). *)
-Theorem C16_pull_failure_condition :
-  forall digest fixed o s,
-    let p := w_pkg (st_w s) in let r := pass digest fixed o s in
-    reach p = true -> o_pull o = false -> r_err r = false ->
-    p_conds (stored_pkg r) = set_cond (mk_cond p CUnpacked false RImagePullBackOff) (p_conds p) /\
-    has_cond CUnpacked false RImagePullBackOff (p_conds (stored_pkg r)) = true /\
-    p_hash (stored_pkg r) = p_hash p /\ r_requeue r = true.
-Proof. exact pull_failure_condition. Qed.
-Print Assumptions C16_pull_failure_condition.
-
-Theorem C16_load_failure_condition :
-  forall digest fixed o s,
-    let p := w_pkg (st_w s) in let r := pass digest fixed o s in
-    reach p = true -> o_pull o = true -> o_load o = false -> r_err r = false ->
-    p_conds (stored_pkg r) =
-      set_cond (mk_cond p CUnpacked true RUnpackSuccess) (set_cond (mk_cond p CInvalid true RLoadError) (p_conds p)) /\
-    has_cond CInvalid true RLoadError (p_conds (stored_pkg r)) = true /\
-    p_hash (stored_pkg r) = Some (p_spec p).
-Proof. exact load_failure_condition. Qed.
-Print Assumptions C16_load_failure_condition.
-
-(** Without an API fault such passes are error free, so the condition IS persisted: Deploy returns
-    nil after a load failure, the unpack reconciler returns nil after a pull failure. *)
-Theorem C16_nofault_pull_failure :
-  forall digest fixed o s,
-    st_f s = [] -> reach (w_pkg (st_w s)) = true -> o_pull o = false -> r_err (pass digest fixed o s) = false.
-Proof. exact nofault_pull_failure. Qed.
-Print Assumptions C16_nofault_pull_failure.
-
-Theorem C16_nofault_load_failure :
-  forall digest fixed o s,
-    st_f s = [] -> reach (w_pkg (st_w s)) = true -> o_pull o = true -> o_load o = false ->
-    r_err (pass digest fixed o s) = false.
-Proof. exact nofault_load_failure. Qed.
-Print Assumptions C16_nofault_load_failure.
-
-Theorem C16_nofault_unmet_fixed :
+(** Without an API fault and without third-party writes ([calm]) such passes are error free, so the
+    condition IS persisted: Deploy returns nil after a load failure and after unmet constraints,
+    the unpack reconciler returns nil after a pull failure. *)
+Theorem C16_calm_pull_failure :
   forall digest o s,
-    st_f s = [] -> reach (w_pkg (st_w s)) = true -> o_pull o = true -> o_load o = true ->
-    cons_err o = false -> unmet o = true -> r_err (pass digest true o s) = false.
+    calm s -> reach (w_pkg (st_w s)) = true -> o_pull o = false -> r_err (pass digest o s) = false.
+Proof. exact (fun digest => nofault_pull_failure digest true). Qed.
+Print Assumptions C16_calm_pull_failure.
+
+Theorem C16_calm_load_failure :
+  forall digest o s,
+    calm s -> reach (w_pkg (st_w s)) = true -> o_pull o = true -> o_load o = false ->
+    r_err (pass digest o s) = false.
+Proof. exact (fun digest => nofault_load_failure digest true). Qed.
+Print Assumptions C16_calm_load_failure.
+
+Theorem C16_calm_unmet :
+  forall digest o s,
+    calm s -> reach (w_pkg (st_w s)) = true -> o_pull o = true -> o_load o = true ->
+    cons_err o = false -> unmet o = true -> r_err (pass digest o s) = false.
 Proof. exact nofault_unmet. Qed.
-Print Assumptions C16_nofault_unmet_fixed.
+Print Assumptions C16_calm_unmet.
 
 (** ** Unchanged spec: no pull, no Deploy (load / render), no ObjectDeployment write. *)
 Theorem C16_unchanged_no_pull :
-  forall digest fixed o s,
+  forall digest o s,
     hash_eqb (p_hash (w_pkg (st_w s))) (p_spec (w_pkg (st_w s))) = true ->
-    exists l, new_events s (pass digest fixed o s) l /\ none_of busy l = true /\
-              od_tmpl (st_w (r_st (pass digest fixed o s))) = od_tmpl (st_w s).
-Proof. exact unchanged_no_pull. Qed.
+    exists l, new_events s (pass digest o s) l /\ none_of busy l = true /\
+              od_tmpl (st_w (r_st (pass digest o s))) = od_tmpl (st_w s).
+Proof. exact (fun digest => unchanged_no_pull digest true). Qed.
 Print Assumptions C16_unchanged_no_pull.
 
 (** status.unpackedHash moves only in an error-free, unpaused pass whose pull succeeded - and then
     to the hash of the current spec; this is what makes the short cut above apply next time. *)
 Theorem C16_unpacked_hash :
-  forall digest fixed o s,
-    let p := w_pkg (st_w s) in let r := pass digest fixed o s in
+  forall digest o s,
+    let p := w_pkg (st_w s) in let r := pass digest o s in
     r_err r = false ->
     p_hash (stored_pkg r) =
       if s_paused (p_spec p) then p_hash p
       else if hash_eqb (p_hash p) (p_spec p) then p_hash p
       else if o_pull o then Some (p_spec p) else p_hash p.
-Proof. exact pass_hash_ok. Qed.
+Proof. exact (fun digest => pass_hash_ok digest true). Qed.
 Print Assumptions C16_unpacked_hash.
 
-(** ** Changed spec, deployable package, error-free pass: the template is the render of the new
-    spec; hash recorded, Unpacked=True, no Invalid condition.  With [fixed = true] "deployable" is
-    "valid and admissible"; for the code as it is ([fixed = false]) it leaves out the constraints -
-    this is the [_partial] variant of the clause. *)
+(** ** Changed spec, valid and admissible package, error-free pass: the stored template is the
+    render of the new spec (hash recorded, Unpacked=True, no Invalid condition) - whatever third
+    parties wrote to the ObjectDeployment in between, i.e. also when the reconciler's Update was
+    answered with Conflict one or more times and went through re-Get + retry. *)
 Theorem C16_changed_template :
-  forall digest fixed o s,
-    let p := w_pkg (st_w s) in let r := pass digest fixed o s in
-    reach p = true -> deployable fixed o = true -> r_err r = false ->
+  forall digest o s,
+    let p := w_pkg (st_w s) in let r := pass digest o s in
+    reach p = true -> all_ok o = true -> r_err r = false ->
     od_tmpl (st_w (r_st r)) = Some (Some (spec_digest digest (p_spec p))) /\
     p_hash (stored_pkg r) = Some (p_spec p) /\
     has_cond CUnpacked true RUnpackSuccess (p_conds (stored_pkg r)) = true /\
     find_cond CInvalid (p_conds (stored_pkg r)) = None.
-Proof. exact changed_template. Qed.
+Proof. exact (fun digest => changed_template digest true). Qed.
 Print Assumptions C16_changed_template.
 
-(** ** History invariant.  For all histories (spec edits, API faults, passes with arbitrary oracle
-    outcomes) from a fresh Package: the stored ObjectDeployment's template is the pre-created empty
-    one or the render of a spec that was current at a pass in which the package was valid and
-    admissible.  Proved for the repaired Deploy. *)
-Theorem C16_od_history_fixed :
+(** The retry loop of the deployment reconciler (deployment_reconciler.go:101-133) on its own:
+    however many of its attempts are answered with Conflict, it leaves into its continuation only
+    with the template [t] stored (the template is set inside the retried closure, after the
+    re-Get); every other exit is an error. *)
+Theorem C16_update_loop_writes :
+  forall n t (k : st -> result) (P : result -> Prop) s,
+    (forall s', od_tmpl (st_w s') = option_map (fun _ => t) (w_od (st_w s)) ->
+                w_pkg (st_w s') = w_pkg (st_w s) -> P (k s')) ->
+    (forall s', P (fail s')) ->
+    P (update_loop n t s k).
+Proof. exact update_loop_writes. Qed.
+Print Assumptions C16_update_loop_writes.
+
+(** ** History invariant.  For all histories (spec edits, API faults, third-party writes, passes
+    with arbitrary oracle outcomes) from a fresh Package: the stored ObjectDeployment's template is
+    the pre-created empty one or the render of a spec that was current at a pass in which the
+    package was valid and admissible. *)
+Theorem C16_od_history :
   forall digest steps sp,
-    od_ok (goods_of digest true all_ok steps (init_world sp) []) (final digest true steps (init_world sp) []).
+    od_ok (goods_of digest true all_ok steps (init_world sp) [] []) (final digest true steps (init_world sp) [] []).
 Proof. exact (fun digest steps sp => od_history_init digest true steps sp). Qed.
-Print Assumptions C16_od_history_fixed.
+Print Assumptions C16_od_history.
 
-(** REFUTED for the code as it is (consequence of F-C16). *)
-Theorem C16_od_history_refuted :
+(** REFUTED for the code before cb58cda (consequence of F-C16). *)
+Theorem C16_v0_od_history_refuted :
   exists steps sp,
-    od_okb (goods_of wit_digest false all_ok steps (init_world sp) []) (final wit_digest false steps (init_world sp) []) = false.
+    od_okb (goods_of wit_digest false all_ok steps (init_world sp) [] []) (final wit_digest false steps (init_world sp) [] []) = false.
 Proof. exact od_history_refuted. Qed.
-Print Assumptions C16_od_history_refuted.
+Print Assumptions C16_v0_od_history_refuted.
 
-(** What the code as it is does guarantee: the same with "every stage other than the constraint
-    check passed" ([stages_ok]) - the constraints clause is what is missing. *)
-Theorem C16_od_history_partial :
-  forall digest steps sp,
-    od_ok (goods_of digest false stages_ok steps (init_world sp) []) (final digest false steps (init_world sp) []).
-Proof. exact (fun digest steps sp => od_history_init digest false steps sp). Qed.
-Print Assumptions C16_od_history_partial.
-
-(** ** The run-time monitor accepts every history of the repaired model, and every history of the
-    code as it is in which no pass has an unmet constraint. *)
-Theorem C16_monitor_sound_fixed :
-  forall t sp steps fx, verdict_all (monitor (fx, t, sp, steps, model_obs true t sp steps)) = true.
-Proof. exact monitor_sound_fixed. Qed.
-Print Assumptions C16_monitor_sound_fixed.
-
-Theorem C16_monitor_sound_current_partial :
-  forall t sp steps fx, constraints_met steps = true ->
-    verdict_all (monitor (fx, t, sp, steps, model_obs false t sp steps)) = true.
-Proof. exact monitor_sound_current. Qed.
-Print Assumptions C16_monitor_sound_current_partial.
+(** ** The run-time monitor accepts every history of the model. *)
+Theorem C16_monitor_sound :
+  forall t sp steps, verdict_all (monitor (t, sp, steps, model_obs t sp steps)) = true.
+Proof. exact monitor_sound. Qed.
+Print Assumptions C16_monitor_sound.
 
 (** ** Non-vacuity: the hypotheses of the implications are satisfiable, and the interesting
     branches are really taken. *)
@@ -226,33 +225,54 @@ Definition ex_ok : oracle :=
   {| o_pull := true; o_load := true; o_range_ok := true; o_unmet := []; o_unique := Some 1;
      o_config := CfgOk; o_images := true; o_render := true |}.
 
-(** a fresh package is reachable, an all-ok oracle is deployable in both models, and the pass is
-    error free: create + update happen and the template is the digest of the spec *)
+(** a fresh package is reachable, an all-ok oracle is deployable, and the pass is error free:
+    create + update happen and the template is the digest of the spec *)
 Example C16_nonvacuous_success :
-  reach (w_pkg (st_w wit_start)) = true /\ deployable true ex_ok = true /\ deployable false ex_ok = true /\
-  r_err (pass wit_digest true ex_ok wit_start) = false /\
-  od_tmpl (st_w (r_st (pass wit_digest true ex_ok wit_start))) = Some (Some 2) /\
-  existsb is_od_write (st_log (r_st (pass wit_digest true ex_ok wit_start))) = true.
+  reach (w_pkg (st_w wit_start)) = true /\ all_ok ex_ok = true /\
+  r_err (pass wit_digest ex_ok wit_start) = false /\
+  od_tmpl (st_w (r_st (pass wit_digest ex_ok wit_start))) = Some (Some 2) /\
+  existsb is_od_write (st_log (r_st (pass wit_digest ex_ok wit_start))) = true.
 Proof. vm_compute. repeat split. Qed.
 
 (** every failure class has an oracle, and an error-free pass exists for the classes whose
-    condition clause needs one (pull failure, load failure, unmet constraint on the repaired model) *)
+    condition clause needs one (pull failure, load failure, unmet constraint) *)
 Example C16_nonvacuous_failures :
   let pullf := {| o_pull := false; o_load := true; o_range_ok := true; o_unmet := []; o_unique := None;
                   o_config := CfgOk; o_images := true; o_render := true |} in
   let loadf := {| o_pull := true; o_load := false; o_range_ok := true; o_unmet := []; o_unique := None;
                   o_config := CfgOk; o_images := true; o_render := true |} in
-  r_err (pass wit_digest false pullf wit_start) = false /\
-  r_err (pass wit_digest false loadf wit_start) = false /\
-  unmet wit_oracle = true /\ r_err (pass wit_digest true wit_oracle wit_start) = false /\
-  has_cond CInvalid true RConstraintsFailed (p_conds (stored_pkg (pass wit_digest true wit_oracle wit_start))) = true /\
-  od_tmpl (st_w (r_st (pass wit_digest true wit_oracle wit_start))) = None.
+  calm wit_start /\
+  r_err (pass wit_digest pullf wit_start) = false /\
+  r_err (pass wit_digest loadf wit_start) = false /\
+  unmet wit_oracle = true /\ r_err (pass wit_digest wit_oracle wit_start) = false /\
+  has_cond CInvalid true RConstraintsFailed (p_conds (stored_pkg (pass wit_digest wit_oracle wit_start))) = true /\
+  od_tmpl (st_w (r_st (pass wit_digest wit_oracle wit_start))) = None.
 Proof. vm_compute. repeat split. Qed.
 
 (** a second pass over the unchanged spec takes the short cut (hash = unpackedHash) *)
 Example C16_nonvacuous_unchanged :
-  let w1 := st_w (r_st (pass wit_digest false ex_ok wit_start)) in
+  let w1 := st_w (r_st (pass wit_digest ex_ok wit_start)) in
   hash_eqb (p_hash (w_pkg w1)) (p_spec (w_pkg w1)) = true /\
-  st_log (r_st (pass wit_digest false ex_ok {| st_w := w1; st_f := []; st_log := [] |})) =
+  st_log (r_st (pass wit_digest ex_ok {| st_w := w1; st_f := []; st_d := []; st_dirty := false; st_log := [] |})) =
     [EReq KGetPkg OOk; EReq KGetOD OOk; EReq KGetOD OOk; EReq KStatus OOk].
+Proof. vm_compute. repeat split. Qed.
+
+(** a changed spec over an existing ObjectDeployment with a third-party write right before the
+    reconciler's Update (request 4) and another one before the retry (request 6): two Conflicts,
+    two re-Gets, the third attempt succeeds, the pass is error free and the template is the render
+    of the NEW spec; with a third-party write before every attempt the five attempts are used up
+    and the pass ends with an error, the old template still stored *)
+Example C16_nonvacuous_conflict :
+  let w1 := st_w (r_st (pass wit_digest ex_ok wit_start)) in
+  let w2 := edit {| s_image := 3; s_config := 0; s_comp := 0; s_paused := false |} w1 in
+  let r := pass wit_digest ex_ok {| st_w := w2; st_f := []; st_d := [false; false; false; false; true; false; true];
+                                    st_dirty := false; st_log := [] |} in
+  let r5 := pass wit_digest ex_ok {| st_w := w2; st_f := []; st_d := [false; false; false; false; true; false; true; false; true; false; true; false; true];
+                                     st_dirty := false; st_log := [] |} in
+  st_log (r_st r) =
+    [EReq KGetPkg OOk; EReq KGetOD OOk; EPull 3; EDeploy; EReq KListPkg OOk; EReq KGetOD OOk;
+     EReq KUpdateOD OConflict; EReq KGetOD OOk; EReq KUpdateOD OConflict; EReq KGetOD OOk; EReq KUpdateOD OOk;
+     EReq KListSet OOk; EReq KListSlice OOk; EReq KGetOD OOk; EReq KStatus OOk] /\
+  r_err r = false /\ od_tmpl w1 = Some (Some 2) /\ od_tmpl (st_w (r_st r)) = Some (Some 4) /\
+  r_err r5 = true /\ od_tmpl (st_w (r_st r5)) = Some (Some 2).
 Proof. vm_compute. repeat split. Qed.
